@@ -62,6 +62,8 @@ def events (d : D) (toks : List String) : D × List Ev :=
       let (d, c) := intern d c; let (d, m') := intern d m
       -- waiting with a spinlock: no mutex protocol to follow
       if (d.kinds.get? m) = some "spin" then (d, [.call t .other]) else (d, [.call t (.cvwait c m' (parseTo to))])
+    | "notify", [c] => let (d, c) := intern d c; (d, [.call t (.notify c false)])
+    | "notifyall", [c] => let (d, c) := intern d c; (d, [.call t (.notify c true)])
     | "shutdown", [u] => let (d, u) := intern d u; (d, [.call t .other, .setShutdown u])
     | _, _ => (d, [.call t .other])
   | "ret" :: t :: op :: r :: e :: _ =>
@@ -75,6 +77,8 @@ def events (d : D) (toks : List String) : D × List Ev :=
     | "wait", .semwait s _ _ _ => (d, [.retSemWait t s (toInt r) (toInt e)])
     | "waiti", .semwait s _ _ _ => (d, [.retSemWait t s (toInt r) (toInt e)])
     | "cvwait", .cvwait c m _ => (d, [.retCvWait t c m (toInt r) (toInt e)])
+    | "notify", .notify c a => (d, [.retNotify t c (toInt r) a])
+    | "notifyall", .notify c a => (d, [.retNotify t c (toInt r) a])
     | _, _ => (d, [])
   | _ => (d, [])
 
